@@ -4,6 +4,7 @@
 -/
 import Gobptree.Ops
 import Gobptree.Generated.CheckOrder
+import Std.Data.HashMap
 
 namespace Gobptree.Driver
 open Gobptree
@@ -23,7 +24,15 @@ def lexLt : List Int → List Int → Bool
 
 def DKey.lt (a b : DKey) : Bool := lexLt a.cls b.cls
 
-abbrev DVal := Option Int
+/-- A non-nil client value: an `int64` or a `[]int64` (written `[1,2,3]`; the slice makes
+    the Go `interface{}` value uncomparable, which the model does not care about). -/
+inductive DV where
+  | int (n : Int)
+  | list (l : List Int)
+  deriving Repr, Inhabited, BEq
+
+/-- `none` is Go's `nil`. -/
+abbrev DVal := Option DV
 
 def parseInt? (s : String) : Option Int := s.toInt?
 
@@ -46,19 +55,50 @@ def showKey (k : DKey) : String :=
   if k.tag == 0 then c else c ++ "#" ++ toString k.tag
 
 def parseVal? (s : String) : Option DVal :=
-  if s == "nil" then some none else (parseInt? s).map some
+  if s == "nil" then some none
+  else if s.startsWith "[" && s.endsWith "]" && s.length ≥ 2 then
+    let body := ((s.drop 1).dropEnd 1).toString
+    if body.isEmpty then some (some (.list []))
+    else
+      let parts := body.splitOn ","
+      let ints := parts.filterMap parseInt?
+      if ints.length == parts.length then some (some (.list ints)) else none
+  else (parseInt? s).map fun n => some (.int n)
 
 def showVal : DVal → String
   | none => "nil"
-  | some n => toString n
+  | some (.int n) => toString n
+  | some (.list l) => "[" ++ ",".intercalate (l.map toString) ++ "]"
 
-/-- callbacks: `c<val>` constant, `a<d>` add (absent / nil count as 0) -/
+/-- callbacks: `c<val>` constant, `a<d>` add (absent / nil / a slice count as 0),
+    `ap<i>` append to the stored slice (absent / nil / an int: the slice `[i]`) -/
 def parseCb? (s : String) : Option (Option DVal → DVal) :=
   if s.startsWith "c" then (parseVal? (s.drop 1).toString).map (fun v => fun _ => v)
+  else if s.startsWith "ap" then (parseInt? (s.drop 2).toString).map (fun d => fun
+    | some (some (.list l)) => some (.list (l ++ [d]))
+    | _ => some (.list [d]))
   else if s.startsWith "a" then (parseInt? (s.drop 1).toString).map (fun d => fun
-    | some (some n) => some (n + d)
-    | _ => some d)
+    | some (some (.int n)) => some (.int (n + d))
+    | _ => some (.int d))
   else none
+
+/-- key number `j` of the `bulk` line (adapter.BulkKey on the Go side) -/
+def bulkKey (ty : String) (j : Int) : Option DKey :=
+  if ty == "str" then
+    if j < 0 then none else
+    let n := j.toNat
+    some { cls := [((n / 40000 + 33 : Nat) : Int), ((n / 200 % 200 + 33 : Nat) : Int), ((n % 200 + 33 : Nat) : Int)], tag := 0 }
+  else some { cls := [j], tag := 0 }
+
+/-- FNV-1a (64 bit) over the characters of `s` (all tokens are ASCII) -/
+def fnvAdd (h : UInt64) (s : String) : UInt64 :=
+  s.foldl (fun h c => (h ^^^ c.toNat.toUInt64) * 1099511628211) h
+
+def fnvOffset : UInt64 := 14695981039346656037
+
+def hex16 (h : UInt64) : String :=
+  let ds := (Nat.toDigits 16 h.toNat)
+  String.ofList (List.replicate (16 - ds.length) '0' ++ ds)
 
 def paramsFor (ty : String) (order : Nat) : Option (Params DKey) :=
   let mk (pad : Option DKey → Option DKey) : Params DKey := { lt := DKey.lt, pad := pad, order := order }
@@ -91,20 +131,110 @@ structure Slot where
   tree   : Option (Tree DKey DVal) := none
   params : Option (Params DKey) := none
   dead   : Bool := false
+  ty     : String := ""
 
 structure St where
   tree   : Option (Tree DKey DVal) := none
   params : Option (Params DKey) := none
   dead   : Bool := false
+  ty     : String := ""
   vr     : Variant := {}
   cur    : String := "0"
   slots  : List (String × Slot) := []
 
 def St.save (st : St) : List (String × Slot) :=
-  (st.cur, { tree := st.tree, params := st.params, dead := st.dead }) :: st.slots.filter (·.1 ≠ st.cur)
+  (st.cur, { tree := st.tree, params := st.params, dead := st.dead, ty := st.ty }) :: st.slots.filter (·.1 ≠ st.cur)
 
 def showPairs (ps : List (DKey × DVal)) : String :=
   " ".intercalate (ps.map fun (k, v) => showKey k ++ "=" ++ showVal v)
+
+/-! ### digest scan (`scand`)
+
+`Tree.scan`/`Tree.pair` look the cursor's leaf up with `Tree.findLeaf`, which walks the whole
+tree: a scan over `n` pairs in `L` leaves costs `n * L` steps, too much for a leaf chain of
+150 000 leaves. `scanDigest` runs the SAME cursor steps with the leaves indexed once in a hash
+map (`scanF`/`pairF` are `Tree.scan`/`Tree.pair` with the lookup replaced); `NewScanner` is the
+model's own `Tree.newScanner`. On trees of at most `selfCheckLeaves` leaves the driver also runs
+the model's `Tree.scanFrom` and prints `scand-selfcheck-failed` if the two disagree. -/
+
+abbrev LeafMap := Std.HashMap Nat (Leaf DKey DVal)
+
+def scanF (m : LeafMap) (c : Cursor) : R (Cursor × Bool) :=
+  match c.leaf with
+  | none => throw .nilDeref
+  | some id =>
+    match m[id]? with
+    | none => throw .nilDeref
+    | some l =>
+      let i := c.i + 1
+      if i = (l.keys.length : Int) then
+        match l.next with
+        | none => pure ({ leaf := none, i := i }, false)
+        | some n => pure ({ leaf := some n, i := 0 }, true)
+      else pure ({ c with i := i }, true)
+
+def pairF (m : LeafMap) (c : Cursor) : R (DKey × DVal) :=
+  match c.leaf with
+  | none => throw .nilDeref
+  | some id =>
+    match m[id]? with
+    | none => throw .nilDeref
+    | some l =>
+      if c.i < 0 then throw .indexOutOfRange else
+      match l.keys[c.i.toNat]?, l.vals[c.i.toNat]? with
+      | some k, some v => pure (k, v)
+      | _, _ => throw .indexOutOfRange
+
+structure Digest where
+  n     : Nat := 0
+  first : String := "-"
+  last  : String := "-"
+  h     : UInt64 := fnvOffset
+  ended : Bool := false
+
+def Digest.add (d : Digest) (k : DKey) (v : DVal) : Digest :=
+  let p := showKey k ++ "=" ++ showVal v
+  { d with n := d.n + 1, first := if d.n == 0 then p else d.first, last := p, h := fnvAdd d.h (" " ++ p) }
+
+def Digest.show (d : Digest) : String :=
+  "scand n=" ++ toString d.n ++ " first=" ++ d.first ++ " last=" ++ d.last ++ " h=" ++ hex16 d.h ++
+    (if d.ended then " end" else " closed")
+
+def scanDigestGo (m : LeafMap) (limit : Option Nat) : Nat → Cursor → Digest → R Digest
+  | 0, _, d => pure d
+  | fuel + 1, c, d => do
+    if limit = some d.n then pure d else
+    let (c', more) ← scanF m c
+    if !more then pure { d with ended := true }
+    else
+      let (k, v) ← pairF m c'
+      scanDigestGo m limit fuel c' (d.add k v)
+
+def selfCheckLeaves : Nat := 48
+
+def scanDigest (P : Params DKey) (vr : Variant) (t : Tree DKey DVal) (key : DKey) (limit : Option Nat) :
+    R (Digest × Bool) := do
+  let ls := Node.leaves t.root
+  let m : LeafMap := ls.foldl (fun m l => m.insert l.id l) {}
+  let fuel := t.abs.length + ls.length + 2
+  let c ← t.newScanner P vr key
+  let d ← scanDigestGo m limit fuel c {}
+  if ls.length ≤ selfCheckLeaves then
+    let (ps, ended) ← t.scanFrom P vr key limit fuel
+    let d' : Digest := { ps.foldl (fun d (k, v) => d.add k v) ({} : Digest) with ended := ended }
+    pure (d, d.show == d'.show)
+  else pure (d, true)
+
+def bulkInsert (P : Params DKey) (ty : String) (from_ step : Int) :
+    Nat → Nat → Tree DKey DVal → Option (Tree DKey DVal)
+  | 0, _, t => some t
+  | n + 1, i, t =>
+    match bulkKey ty (from_ + (i : Int) * step) with
+    | none => none
+    | some k =>
+      match t.insert P k (some (.int ((i % 89 : Nat) : Int))) with
+      | .ok t' => bulkInsert P ty from_ step n (i + 1) t'
+      | .error _ => none
 
 def step (st : St) (line : String) : St × String :=
   let toks := (line.trimAscii.toString.splitOn " ").filter (· ≠ "")
@@ -127,7 +257,7 @@ def step (st : St) (line : String) : St × String :=
     let sl : Slot := match saved.find? (·.1 == n) with
       | some (_, sl) => sl
       | none => {}
-    ({ st with slots := saved, cur := n, tree := sl.tree, params := sl.params, dead := sl.dead }, "slot ok")
+    ({ st with slots := saved, cur := n, tree := sl.tree, params := sl.params, dead := sl.dead, ty := sl.ty }, "slot ok")
   | ["chk", ord] =>
     match parseInt? ord with
     | none => (st, "bad-op")
@@ -138,7 +268,7 @@ def step (st : St) (line : String) : St × String :=
     | some o =>
       if Generated.checkOrderGen (BitVec.ofInt 64 o) then
         match paramsFor ty o.toNat with
-        | some P => ({ st with tree := some (Tree.new o.toNat), params := some P, dead := false }, "new ok")
+        | some P => ({ st with tree := some (Tree.new o.toNat), params := some P, dead := false, ty := ty }, "new ok")
         | none => (st, "bad-op")
       else ({ st with tree := none, params := none, dead := false }, "new err")
   | op :: args =>
@@ -189,6 +319,28 @@ def step (st : St) (line : String) : St × String :=
           | .error _ => fail
         | _, _ => (st, "bad-op")
       | "snap", [] => (st, "snap " ++ showTree t)
+      | "opt", ["sweep", k] =>
+        match parseInt? k with
+        | some k => if k < 0 then (st, "bad-op") else (st, "opt ok")
+        | none => (st, "bad-op")
+      | "locks", [] => (st, "locks")
+      | "bulk", [a, n, s] =>
+        match parseInt? a, parseInt? n, parseInt? s with
+        | some a, some n, some s =>
+          if n < 0 then (st, "bad-op") else
+          match bulkInsert P st.ty a s n.toNat 0 t with
+          | some t' => ({ st with tree := some t' }, "bulk ok")
+          | none => fail
+        | _, _, _ => (st, "bad-op")
+      | "scand", [k, n] =>
+        match parseKey? k, parseInt? n with
+        | some k, some n =>
+          let limit : Option Nat := if n < 0 then none else some n.toNat
+          match scanDigest P st.vr t k limit with
+          | .ok (d, true) => (st, d.show)
+          | .ok (_, false) => (st, "scand-selfcheck-failed")
+          | .error _ => fail
+        | _, _ => (st, "bad-op")
       | _, _ => (st, "bad-op")
     | _, _ => (st, "no-tree")
   | [] => (st, "bad-op")
